@@ -104,6 +104,7 @@ def tdefectsOfAtom : String → Option TDefects
   | "asis" => some .asIs
   | "aswas" => some .asWas
   | "repaired" => some .repaired
+  | "safefix" => some .safeFix
   | _ => none
 
 def expectOfAtom : String → Option Expect
@@ -125,7 +126,8 @@ def locToSexp (l : Loc) : List Sexp := [Sexp.nat l.line, Sexp.nat l.col]
 /-- `(c03-check <asis|aswas|repaired> <env> <strict> <expect> <node>)` -/
 def handleCheck : List Sexp → Sexp
   | [.atom "c03-check", .atom d, e, strict, .atom ex, n] =>
-    match defectsOfAtom d, tdefectsOfAtom d, envOfSexp e, strict.asBool, expectOfAtom ex, Node.ofSexp n with
+    match defectsOfAtom (if d == "safefix" then "asis" else d), tdefectsOfAtom d, envOfSexp e, strict.asBool,
+        expectOfAtom ex, Node.ofSexp n with
     | some (dn, _), some dt, some e, some strict, some ex, some n =>
       match check (cfgOfEnv dn dt e strict ex) n with
       | .ok n' t => .list [.atom "ok", Ty.optToSexp t, n'.toSexp]
